@@ -57,7 +57,7 @@ CHECKS["C01"] = dict(
          "operation kinds with symbolic arguments plus named depth-4 scenarios; after each step token-sums of "
          "user_inst_coll_resources and job_group_inst_coll_cancellable_resources equal the recount. Counterexamples are "
          "replayed concretely on the real Python + concrete emulator. Bounded: J<=3 jobs, G<=3 groups, 2 updates, depth 2 (+4).",
-    note=SQL_NOTE + " Scheduler enabledness (which jobs schedule_job is called for) is hand-transcribed from pool.py's WHERE clauses.",
+    note=SQL_NOTE + " Scheduler/canceller enabledness comes from the candidate queries extracted from pool.py / canceller.py (vt/sqlsym/driverq.py); only the Python branch between the queries is read off the AST shape.",
     technique="z3 over a symbolic execution of the real SQL routines and front-end Python: trigger-step LIA proof + BMC from the empty database",
     design_ref="6/C01, 3.1")
 
@@ -97,8 +97,8 @@ for _pid, _what, _tech in [
             "by the scheduler queries, stay in their inserted state, are not counted in user counters, and n_jobs/completion/"
             "tallies are functions of committed jobs only. Two genuine defects are listed as known findings.", "inertness of uncommitted updates"),
 ]:
-    CHECKS[_pid] = dict(level="model_checking", text=BMC_LEVEL + _what, note=SQL_NOTE + " Scheduler enabledness is hand-transcribed "
-                        "from pool.py's WHERE clauses; instances are set up as rows.",
+    CHECKS[_pid] = dict(level="model_checking", text=BMC_LEVEL + _what, note=SQL_NOTE + " Scheduler/canceller enabledness comes from "
+                        "the candidate queries extracted from pool.py / canceller.py; instances are set up as rows.",
                         technique="z3 bounded model checking of the real SQL routines + front-end Python from the empty database (" + _tech + ")",
                         design_ref="6/" + _pid + ", 3.1")
 
@@ -122,8 +122,8 @@ for _pid, _what, _tech in [
             "(schedule -> Running incl. always-run in cancelled groups, complete -> terminal, unschedule -> Ready). Not a "
             "liveness proof of the running service.", "deadlock-freedom / progress at DB level"),
 ]:
-    CHECKS[_pid] = dict(level="model_checking", text=BMC_LEVEL + _what, note=SQL_NOTE + " Scheduler/canceller enabledness is "
-                        "hand-transcribed from pool.py / canceller.py; instances are set up as rows.",
+    CHECKS[_pid] = dict(level="model_checking", text=BMC_LEVEL + _what, note=SQL_NOTE + " Scheduler/canceller enabledness comes "
+                        "from the candidate queries extracted from pool.py / canceller.py; instances are set up as rows.",
                         technique="z3 bounded model checking of the real SQL routines + front-end/driver Python from the empty database (" + _tech + ")",
                         design_ref="6/" + _pid + ", 10.1")
 CHECKS["C14"] = dict(
